@@ -95,3 +95,13 @@ claim('C08', 'typestate analysis of impl Lexer over structured HIR (characters k
       'column arithmetic in characters not bytes, Indent/Dedent pairing with the indent stack and EOF only on an empty stack.',
       'Termination of the token loop and the columns of multi-line tokens are not decided. Entry contexts of lex_num_dot / lex_exponent are frozen from the call sites.',
       'DESIGN.md §3 C08')
+
+claim('C24', 'shares the lexer column rules (consumed vs appended characters per escape arm; column arithmetic in characters)',
+      'Decides the clause "locations after string escapes on the same line": diagnostic locations are concatenations of token locations, so token columns must be faithful '
+      '(21 escape arms drift today: known findings).',
+      'That a location covers the construct it names and that rendering never crashes are not decided (format_context\'s unchecked `ln_end - ln_begin` is listed as undecided).',
+      'DESIGN.md §3 C24')
+claim('C28', 'structural rules on els::util::pos_to_byte_index and FileCache::incremental_update; coupled-state rule cache text / VFS',
+      'Decides five necessary conditions of document synchronisation: UTF-16 column units, char-boundary results, line clamp, full-text changes, cache and VFS updated together.',
+      'Equality of the documents over arbitrary edit histories is not decided.',
+      'DESIGN.md §3 C28')
